@@ -43,6 +43,8 @@ Rewrite rules (each application is counted per function and reported in the evid
       `Some((_, Dir::Left))`): by default binding modes both match exactly the same values; Verus rejects `&` patterns
   R17 `for &(a, b) in EXPR {` -> `for r17_ in EXPR { let (a, b) = *r17_;`: the reference pattern of a `for` header
       becomes a first body statement copying the (Copy) tuple out of the reference - same bindings, same values
+  R18 `| where K: Ord`: a supertrait bound of the real trait (`Kmer: ... + Ord`) that the Verus-side seam trait does not carry
+      is restated on the extracted function as a where clause (no executable effect)
   R15 `//@stmts file | container | fn | from "a" | to "b"`: a contiguous statement range of a function body
       (from the statement containing anchor a through the statement containing anchor b) is emitted verbatim
       inside a wrapper function whose header, parameters and return expression are written in the template;
@@ -927,6 +929,12 @@ def process(template_path, repo, meta, twin=None, stub=()):
             elif op.startswith("ret "):
                 sig = name_return(sig, op[4:].strip())
                 counts["R9"] = counts.get("R9", 0) + 1
+            elif op.startswith("where "):
+                # R18: a supertrait bound of the real trait that the seam trait omits is restated on the function
+                if re.search(r"\bwhere\b", sig):
+                    raise ExtractError("%s: signature already has a where clause" % name)
+                sig = sig.rstrip() + " " + op
+                counts["R18"] = counts.get("R18", 0) + 1
             elif op == "pub":
                 if not sig.startswith("pub"):
                     sig = "pub " + sig
